@@ -14,6 +14,7 @@
    fidelity separately); error CODES are exact.
    Definitions only. *)
 From Aqua Require Import Base Json Air Trace Handler Values Scalars Lens.
+From Aqua Require Stream.
 Open Scope N_scope.
 Open Scope list_scope.
 
@@ -198,6 +199,12 @@ Record cid_state := { cs_values : list cid; cs_tetraplets : list cid; cs_canon_e
 Definition cid_mem (c : cid) (l : list cid) : bool := existsb (cid_eqb c) l.
 Definition cid_track (c : cid) (l : list cid) : list cid := if cid_mem c l then l else l ++ [c].
 
+(* stage 2 state: Streams, StreamMaps (execution_context/streams_variables.rs, stream_maps_variables.rs) and the
+   canonicalized stream maps; a canon stream map keeps the key-value aggregates in canonicalization order *)
+Record canon_map_wp := { cmw_values : list vagg; cmw_tetraplet : tetraplet; cmw_cid : cid }.   (* CanonStreamMapWithProvenance *)
+Record ext_state := { e_streams : Stream.streams vagg; e_stream_maps : Stream.streams vagg; e_canon_maps : matrix canon_map_wp }.
+Definition ext_new : ext_state := {| e_streams := []; e_stream_maps := []; e_canon_maps := matrix_new |}.
+
 Record ctx := {
   x_params : run_params;
   x_scalars : matrix vagg;
@@ -213,6 +220,7 @@ Record ctx := {
   x_cids : cid_state;
   x_tracker : list cid;                (* PeerCidTracker: cids registered for the current peer, in order *)
   x_fold_counter : N;                  (* InstructionTracker: stream folds met *)
+  x_ext : ext_state;                   (* streams, stream maps, canon stream maps (stage 2) *)
   x_handler : handler cid
 }.
 
@@ -222,67 +230,73 @@ Definition set_scalars (x : ctx) (m : matrix vagg) : ctx :=
      x_next_peers := x_next_peers x; x_last_error := x_last_error x; x_last_error_can_set := x_last_error_can_set x;
      x_error := x_error x; x_error_can_set := x_error_can_set x; x_complete := x_complete x; x_lcid := x_lcid x;
      x_call_results := x_call_results x; x_requests := x_requests x; x_cids := x_cids x; x_tracker := x_tracker x;
-     x_fold_counter := x_fold_counter x; x_handler := x_handler x |}.
+     x_fold_counter := x_fold_counter x; x_ext := x_ext x; x_handler := x_handler x |}.
 Definition set_canons (x : ctx) (m : matrix canon_wp) : ctx :=
   {| x_params := x_params x; x_scalars := x_scalars x; x_canons := m; x_iterables := x_iterables x;
      x_next_peers := x_next_peers x; x_last_error := x_last_error x; x_last_error_can_set := x_last_error_can_set x;
      x_error := x_error x; x_error_can_set := x_error_can_set x; x_complete := x_complete x; x_lcid := x_lcid x;
      x_call_results := x_call_results x; x_requests := x_requests x; x_cids := x_cids x; x_tracker := x_tracker x;
-     x_fold_counter := x_fold_counter x; x_handler := x_handler x |}.
+     x_fold_counter := x_fold_counter x; x_ext := x_ext x; x_handler := x_handler x |}.
 Definition set_iterables (x : ctx) (l : list (string * fold_state)) : ctx :=
   {| x_params := x_params x; x_scalars := x_scalars x; x_canons := x_canons x; x_iterables := l;
      x_next_peers := x_next_peers x; x_last_error := x_last_error x; x_last_error_can_set := x_last_error_can_set x;
      x_error := x_error x; x_error_can_set := x_error_can_set x; x_complete := x_complete x; x_lcid := x_lcid x;
      x_call_results := x_call_results x; x_requests := x_requests x; x_cids := x_cids x; x_tracker := x_tracker x;
-     x_fold_counter := x_fold_counter x; x_handler := x_handler x |}.
+     x_fold_counter := x_fold_counter x; x_ext := x_ext x; x_handler := x_handler x |}.
 Definition set_next_peers (x : ctx) (l : list string) : ctx :=
   {| x_params := x_params x; x_scalars := x_scalars x; x_canons := x_canons x; x_iterables := x_iterables x;
      x_next_peers := l; x_last_error := x_last_error x; x_last_error_can_set := x_last_error_can_set x;
      x_error := x_error x; x_error_can_set := x_error_can_set x; x_complete := x_complete x; x_lcid := x_lcid x;
      x_call_results := x_call_results x; x_requests := x_requests x; x_cids := x_cids x; x_tracker := x_tracker x;
-     x_fold_counter := x_fold_counter x; x_handler := x_handler x |}.
+     x_fold_counter := x_fold_counter x; x_ext := x_ext x; x_handler := x_handler x |}.
 Definition set_last_error (x : ctx) (e : instr_error) (can : bool) : ctx :=
   {| x_params := x_params x; x_scalars := x_scalars x; x_canons := x_canons x; x_iterables := x_iterables x;
      x_next_peers := x_next_peers x; x_last_error := e; x_last_error_can_set := can;
      x_error := x_error x; x_error_can_set := x_error_can_set x; x_complete := x_complete x; x_lcid := x_lcid x;
      x_call_results := x_call_results x; x_requests := x_requests x; x_cids := x_cids x; x_tracker := x_tracker x;
-     x_fold_counter := x_fold_counter x; x_handler := x_handler x |}.
+     x_fold_counter := x_fold_counter x; x_ext := x_ext x; x_handler := x_handler x |}.
 Definition set_error (x : ctx) (e : instr_error) (can : bool) : ctx :=
   {| x_params := x_params x; x_scalars := x_scalars x; x_canons := x_canons x; x_iterables := x_iterables x;
      x_next_peers := x_next_peers x; x_last_error := x_last_error x; x_last_error_can_set := x_last_error_can_set x;
      x_error := e; x_error_can_set := can; x_complete := x_complete x; x_lcid := x_lcid x;
      x_call_results := x_call_results x; x_requests := x_requests x; x_cids := x_cids x; x_tracker := x_tracker x;
-     x_fold_counter := x_fold_counter x; x_handler := x_handler x |}.
+     x_fold_counter := x_fold_counter x; x_ext := x_ext x; x_handler := x_handler x |}.
 Definition set_complete (x : ctx) (b : bool) : ctx :=
   {| x_params := x_params x; x_scalars := x_scalars x; x_canons := x_canons x; x_iterables := x_iterables x;
      x_next_peers := x_next_peers x; x_last_error := x_last_error x; x_last_error_can_set := x_last_error_can_set x;
      x_error := x_error x; x_error_can_set := x_error_can_set x; x_complete := b; x_lcid := x_lcid x;
      x_call_results := x_call_results x; x_requests := x_requests x; x_cids := x_cids x; x_tracker := x_tracker x;
-     x_fold_counter := x_fold_counter x; x_handler := x_handler x |}.
+     x_fold_counter := x_fold_counter x; x_ext := x_ext x; x_handler := x_handler x |}.
 Definition set_calls (x : ctx) (lcid : N) (results : list (N * service_answer)) (reqs : list (N * request)) : ctx :=
   {| x_params := x_params x; x_scalars := x_scalars x; x_canons := x_canons x; x_iterables := x_iterables x;
      x_next_peers := x_next_peers x; x_last_error := x_last_error x; x_last_error_can_set := x_last_error_can_set x;
      x_error := x_error x; x_error_can_set := x_error_can_set x; x_complete := x_complete x; x_lcid := lcid;
      x_call_results := results; x_requests := reqs; x_cids := x_cids x; x_tracker := x_tracker x;
-     x_fold_counter := x_fold_counter x; x_handler := x_handler x |}.
+     x_fold_counter := x_fold_counter x; x_ext := x_ext x; x_handler := x_handler x |}.
 Definition set_cids (x : ctx) (c : cid_state) (tr : list cid) : ctx :=
   {| x_params := x_params x; x_scalars := x_scalars x; x_canons := x_canons x; x_iterables := x_iterables x;
      x_next_peers := x_next_peers x; x_last_error := x_last_error x; x_last_error_can_set := x_last_error_can_set x;
      x_error := x_error x; x_error_can_set := x_error_can_set x; x_complete := x_complete x; x_lcid := x_lcid x;
      x_call_results := x_call_results x; x_requests := x_requests x; x_cids := c; x_tracker := tr;
-     x_fold_counter := x_fold_counter x; x_handler := x_handler x |}.
+     x_fold_counter := x_fold_counter x; x_ext := x_ext x; x_handler := x_handler x |}.
 Definition set_handler (x : ctx) (h : handler cid) : ctx :=
   {| x_params := x_params x; x_scalars := x_scalars x; x_canons := x_canons x; x_iterables := x_iterables x;
      x_next_peers := x_next_peers x; x_last_error := x_last_error x; x_last_error_can_set := x_last_error_can_set x;
      x_error := x_error x; x_error_can_set := x_error_can_set x; x_complete := x_complete x; x_lcid := x_lcid x;
      x_call_results := x_call_results x; x_requests := x_requests x; x_cids := x_cids x; x_tracker := x_tracker x;
-     x_fold_counter := x_fold_counter x; x_handler := h |}.
+     x_fold_counter := x_fold_counter x; x_ext := x_ext x; x_handler := h |}.
 Definition set_fold_counter (x : ctx) (n : N) : ctx :=
   {| x_params := x_params x; x_scalars := x_scalars x; x_canons := x_canons x; x_iterables := x_iterables x;
      x_next_peers := x_next_peers x; x_last_error := x_last_error x; x_last_error_can_set := x_last_error_can_set x;
      x_error := x_error x; x_error_can_set := x_error_can_set x; x_complete := x_complete x; x_lcid := x_lcid x;
      x_call_results := x_call_results x; x_requests := x_requests x; x_cids := x_cids x; x_tracker := x_tracker x;
-     x_fold_counter := n; x_handler := x_handler x |}.
+     x_fold_counter := n; x_ext := x_ext x; x_handler := x_handler x |}.
+Definition set_ext (x : ctx) (e : ext_state) : ctx :=
+  {| x_params := x_params x; x_scalars := x_scalars x; x_canons := x_canons x; x_iterables := x_iterables x;
+     x_next_peers := x_next_peers x; x_last_error := x_last_error x; x_last_error_can_set := x_last_error_can_set x;
+     x_error := x_error x; x_error_can_set := x_error_can_set x; x_complete := x_complete x; x_lcid := x_lcid x;
+     x_call_results := x_call_results x; x_requests := x_requests x; x_cids := x_cids x; x_tracker := x_tracker x;
+     x_fold_counter := x_fold_counter x; x_ext := e; x_handler := x_handler x |}.
 
 Definition make_incomplete (x : ctx) : ctx := set_complete x false.
 Definition flush_complete (x : ctx) : ctx := set_complete x true.
@@ -636,6 +650,18 @@ Fixpoint results_take (l : list (N * service_answer)) (id : N) : option service_
   | (k, a) :: r => if k =? id then (Some a, r) else let '(o, r') := results_take r id in (o, (k, a) :: r')
   end.
 
+(* Streams::add_stream_value on the context (execution_context/streams_variables.rs) *)
+Definition with_streams (x : ctx) (m : Stream.streams vagg) : ctx :=
+  set_ext x {| e_streams := m; e_stream_maps := e_stream_maps (x_ext x); e_canon_maps := e_canon_maps (x_ext x) |}.
+Definition add_stream_value (x : ctx) (name : string) (v : vagg) (g : Stream.generation) (p : N) : pres ctx :=
+  match Stream.streams_add_stream_value vagg (e_streams (x_ext x)) name v g p with
+  | Stream.SOk m => POk (with_streams x m)
+  | Stream.SErr _ => PErr (EUncatch UStreamSizeLimitExceeded)
+  | Stream.SCrash _ => PCrash "ValuesMatrix: generation index does not fit u32"
+  end.
+Definition gen_of_source (src : value_source) (g : N) : Stream.generation :=       (* Generation::from_data *)
+  match src with PreviousData => Stream.GPrevious g | CurrentData => Stream.GCurrent g end.
+
 (* call_result_setter.rs: populate_context_from_peer_service_result *)
 Definition populate_from_service_result (x : ctx) (result : json) (t : tetraplet) (pos : N) (arg_hash : cid)
            (out : call_output) : xres * option (call_result cid) :=
@@ -648,7 +674,14 @@ Definition populate_from_service_result (x : ctx) (result : json) (t : tetraplet
       | PCrash s => (XCrash s, None)
       | PUnsupported w => (XUnsupported w, None)
       end
-  | OutStream _ => (XUnsupported "stream", None)
+  | OutStream v =>
+      let '(x1, sc) := track_service_result x result t arg_hash in
+      match add_stream_value x1 (v_name v) (VAService result t pos sc) Stream.GNew (v_pos v) with
+      | POk x2 => (XOk (record_cid x2 (tp_peer t) sc), Some (Executed (VRStream sc generation_stub)))
+      | PErr e => (XErr e x1, None)
+      | PCrash s => (XCrash s, None)
+      | PUnsupported w => (XUnsupported w, None)
+      end
   | OutNone => (XOk x, Some (Executed (VRUnused (CValue result))))
   end.
 
@@ -668,7 +701,8 @@ Definition update_state_with_service_result (x : ctx) (t : tetraplet) (arg_hash 
       (* the message embeds serde_json's error text: opaque *)
       let failed := call_service_failed_value 2147483647 "<msg:service result is not JSON>" in
       let '(x1, sc) := track_service_result x failed t arg_hash in
-      XErr (ECatch (CLocalServiceError 2147483647 "<msg:service result is not JSON>")) (call_end x1 (Failed sc))
+      let x2 := record_cid x1 (tp_peer t) sc in          (* since the fix for the unsigned Failed state (C03) *)
+      XErr (ECatch (CLocalServiceError 2147483647 "<msg:service result is not JSON>")) (call_end x2 (Failed sc))
   | Some result =>
       let pos := trace_pos_of x in
       match populate_from_service_result x result t pos arg_hash out with
@@ -679,20 +713,23 @@ Definition update_state_with_service_result (x : ctx) (t : tetraplet) (arg_hash 
 
 (* call_result_setter.rs: populate_context_from_data *)
 Definition populate_from_data (x : ctx) (v : value_ref cid) (arg_hash : cid) (t : tetraplet) (pos : N)
-           (out : call_output) : pres ctx :=
+           (src : value_source) (out : call_output) : pres ctx :=
   match out, v with
   | OutScalar sv, VRScalar c =>
       dop si <- resolve_service_info x c;
       dop _ <- verify_call arg_hash t (si_arg_hash si) (si_tetraplet si);
       set_scalar_value x (v_name sv) (VAService (si_value si) t pos c)
-  | OutStream _, VRStream _ _ => PUnsupported "stream"
+  | OutStream sv, VRStream c g =>
+      dop si <- resolve_service_info x c;
+      dop _ <- verify_call arg_hash t (si_arg_hash si) (si_tetraplet si);
+      add_stream_value x (v_name sv) (VAService (si_value si) t pos c) (gen_of_source src g) (v_pos sv)
   | OutNone, VRUnused _ => POk x
   | _, _ => PErr (EUncatch UCallResultNotCorrespondToInstr)
   end.
 
 (* prev_result_handler.rs: handle_prev_state *)
-Definition handle_prev_state (x : ctx) (met : call_result cid) (pos : N) (t : tetraplet) (arg_hash : option cid)
-           (out : call_output) : xres * state_descr :=
+Definition handle_prev_state (x : ctx) (met : call_result cid) (pos : N) (src : value_source) (t : tetraplet)
+           (arg_hash : option cid) (out : call_output) : xres * state_descr :=
   let dummy := SD false None in
   match met with
   | Failed fc =>
@@ -746,7 +783,7 @@ Definition handle_prev_state (x : ctx) (met : call_result cid) (pos : N) (t : te
       match arg_hash with
       | None => (XCrash "argument_hash.as_ref().unwrap() on an Executed state with unresolved arguments", dummy)
       | Some ah =>
-          match populate_from_data x v ah t pos out with
+          match populate_from_data x v ah t pos src out with
           | POk x1 =>
               let x2 := match v with
                         | VRScalar c | VRStream c _ => record_cid x1 (tp_peer t) c
@@ -781,8 +818,8 @@ Definition resolved_call_execute (x : ctx) (t : tetraplet) (args : list value) (
                         XOk (call_end (make_incomplete (set_next_peers x0 (x_next_peers x0 ++ [tp_peer t])))
                                       (RequestSentBy (SPeer (current_peer x0))))
                       else XErr e x0     (* prepare_request_params fails joinably; no prev state to restore *)
-                  | CallMet _ met pos _ =>
-                      match handle_prev_state x0 met pos t None out with
+                  | CallMet _ met pos src =>
+                      match handle_prev_state x0 met pos src t None out with
                       | (XOk x1, SD should prev) =>
                           if negb should then XOk (maybe_set_prev_state x1 (SD should prev))
                           else if negb (String.eqb (tp_peer t) (current_peer x1)) then
@@ -815,8 +852,8 @@ Definition resolved_call_execute (x : ctx) (t : tetraplet) (args : list value) (
           end in
         match fst rh with
         | CallNotMet _ => continue x0 (SD true None)
-        | CallMet _ met pos _ =>
-            match handle_prev_state x0 met pos t (Some ah) out with
+        | CallMet _ met pos src =>
+            match handle_prev_state x0 met pos src t (Some ah) out with
             | (XOk x1, sd) => continue x1 sd
             | (r, _) => r
             end
